@@ -499,6 +499,44 @@ class Buf:
         return "<buffer %s>" % self.role
 
 
+class BuiltArray:
+    """a small array constructed in the routine: np.zeros(<literal shape>) followed by stores at
+    constant indices.  entries: index prefix -> Poly (everything else is 0)."""
+
+    def __init__(self, shape):
+        self.shape = tuple(shape)
+        self.entries = {}
+
+    def load(self, pattern):
+        """pattern: per dimension an int or None (full slice).  The common value of all selected
+        elements, or None when they differ / the pattern does not fit."""
+        import itertools
+        if len(pattern) > len(self.shape):
+            return None
+        pattern = list(pattern) + [None] * (len(self.shape) - len(pattern))
+        ranges = []
+        for p_, n in zip(pattern, self.shape):
+            if p_ is None:
+                ranges.append(range(n))
+            else:
+                if not (-n <= p_ < n):
+                    return None
+                ranges.append([p_ % n])
+        vals = []
+        for full in itertools.product(*ranges):
+            best, v = -1, ZERO
+            for k, val in self.entries.items():
+                if len(k) > best and tuple(full[:len(k)]) == k:
+                    best, v = len(k), val
+            vals.append(v)
+        if not vals or any(not (isinstance(v, Poly) and v == vals[0]) for v in vals):
+            return None
+        return vals[0]
+
+    def __repr__(self):
+        return "<built array %s %r>" % (self.shape, self.entries)
+
+
 class Mask:
     """boolean array  L <op> R  with both sides in the monomial fragment"""
 
@@ -609,6 +647,7 @@ class Evaluator:
         self.leaf = leaf
         self.call = call
         self.module_consts = module_consts or {}
+        self.elementwise_index = False  # a constant index into an elementwise expression selects "the" element
         self.eval_expr_calls = False  # evaluate calls made for effect (lets the call hook observe them)
         self.name_atoms = {}  # local name -> atom name, applied when the name is bound to a non-Poly value
         self.stores = []
@@ -684,6 +723,18 @@ class Evaluator:
                 if k == ():
                     return base
                 return Unknown("row %s of %s" % (pf.src(node.slice), base.role))
+            if isinstance(base, BuiltArray):
+                sl = node.slice
+                pat = []
+                for e in (sl.elts if isinstance(sl, ast.Tuple) else [sl]):
+                    if isinstance(e, ast.Slice) and e.lower is None and e.upper is None and e.step is None:
+                        pat.append(None)
+                    elif isinstance(e, ast.Constant) and isinstance(e.value, int) and not isinstance(e.value, bool):
+                        pat.append(e.value)
+                    else:
+                        return Unknown("index %s of a constructed array" % pf.src(e))
+                v = base.load(pat)
+                return v if v is not None else Unknown("elements %s of a constructed array differ" % pf.src(sl))
             if isinstance(base, Mask):
                 return base  # a row / slice of a mask is governed by the same condition
             if isinstance(base, tuple):
@@ -695,6 +746,8 @@ class Evaluator:
                 k = sub_key(node.slice)
                 if k == ():
                     return base  # x[:] / x[None, :]
+                if self.elementwise_index and all(isinstance(x, int) for x in k):
+                    return base
             return Unknown("subscript %s" % pf.src(node))
         if isinstance(node, ast.Call):
             return self._call(node)
@@ -742,6 +795,10 @@ class Evaluator:
             return self.poly(node.args[0]) * self.poly(node.args[1])
         if isinstance(node.func, ast.Attribute) and node.func.attr in ("copy", "item") and not node.args:
             return self.ev(node.func.value)
+        if name in ("np.zeros", "numpy.zeros") and node.args and isinstance(node.args[0], (ast.Tuple, ast.List)) \
+                and all(isinstance(e, ast.Constant) and isinstance(e.value, int) for e in node.args[0].elts) \
+                and 0 < len(node.args[0].elts) <= 4 and all(0 < e.value <= 8 for e in node.args[0].elts):
+            return BuiltArray([e.value for e in node.args[0].elts])
         if self.call is not None:
             v = self.call(node, self)
             if v is not None:
@@ -768,8 +825,25 @@ class Evaluator:
         if isinstance(test, ast.Compare) and len(test.ops) == 1:
             l, op, r = test.left, test.ops[0], test.comparators[0]
             ls = pf.src(l)
+            if ls in self.assume and isinstance(self.assume[ls], tuple) and len(self.assume[ls]) == 2 \
+                    and self.assume[ls][0] in ("gt", "lt") and isinstance(r, ast.Constant) \
+                    and isinstance(r.value, (int, float)) and not isinstance(r.value, bool):
+                # the value is only known to lie above / below a bound
+                kind, c = self.assume[ls]
+                rv = r.value
+                if kind == "gt" and rv <= c:      # value > c >= rv
+                    return {ast.Gt: True, ast.GtE: True, ast.NotEq: True, ast.Lt: False, ast.LtE: False,
+                            ast.Eq: False}.get(type(op))
+                if kind == "lt" and rv >= c:      # value < c <= rv
+                    return {ast.Lt: True, ast.LtE: True, ast.NotEq: True, ast.Gt: False, ast.GtE: False,
+                            ast.Eq: False}.get(type(op))
+                return None
             if ls in self.assume:
                 val = self.assume[ls]
+                if isinstance(op, (ast.Lt, ast.LtE, ast.Gt, ast.GtE)) and isinstance(r, ast.Constant) \
+                        and val is not ELSE and isinstance(val, (int, float)) and isinstance(r.value, (int, float)):
+                    return {ast.Lt: val < r.value, ast.LtE: val <= r.value, ast.Gt: val > r.value,
+                            ast.GtE: val >= r.value}[type(op)]
                 if isinstance(op, (ast.Eq, ast.NotEq)) and isinstance(r, ast.Constant):
                     eq = (val is not ELSE) and val == r.value
                     return eq if isinstance(op, ast.Eq) else not eq
@@ -808,6 +882,15 @@ class Evaluator:
             base = pf.base_name(target)
             key = sub_key(target.slice) if isinstance(target.value, ast.Name) else (("e", pf.src(target)),)
             cur = self.env.get(base)
+            if isinstance(cur, BuiltArray) and isinstance(target.value, ast.Name):
+                sl = target.slice
+                elts = sl.elts if isinstance(sl, ast.Tuple) else [sl]
+                if all(isinstance(e, ast.Constant) and isinstance(e.value, int) for e in elts) and isinstance(value, Poly) \
+                        and len(elts) <= len(cur.shape) and all(0 <= e.value < n for e, n in zip(elts, cur.shape)):
+                    cur.entries[tuple(e.value for e in elts)] = value
+                else:
+                    self.env[base] = Unknown("store %s into a constructed array" % pf.src(node)[:50])
+                return
             if isinstance(cur, Poly) and isinstance(target.value, ast.Name):
                 # store into a local that currently has a symbolic value
                 if key == ():
